@@ -72,3 +72,48 @@ Fixpoint split_ws_go (l : bytes) (skip : nat) (cur : bytes) (acc : list bytes) :
 Definition split_ws (l : bytes) : list bytes := split_ws_go l O [] [].
 Definition first_word_of (l : bytes) : option bytes :=
   match split_ws l with [] => None | w :: _ => Some w end.
+
+(* ---- code points <-> UTF-8 ---- *)
+Definition ustr := list N.                     (* a Rust str/String as its chars *)
+Definition scalar_ok (c : N) : bool := (c <? 55296) || ((57344 <=? c) && (c <? 1114112)).
+
+Definition len_utf8 (c : N) : nat :=
+  if c <? 128 then 1%nat else if c <? 2048 then 2%nat else if c <? 65536 then 3%nat else 4%nat.
+Definition byte_len (s : ustr) : nat := fold_right (fun c n => (len_utf8 c + n)%nat) 0%nat s.
+
+Definition utf8_char (c : N) : bytes :=
+  if c <? 128 then [c]
+  else if c <? 2048 then [192 + c / 64; 128 + c mod 64]
+  else if c <? 65536 then [224 + c / 4096; 128 + (c / 64) mod 64; 128 + c mod 64]
+  else [240 + c / 262144; 128 + (c / 4096) mod 64; 128 + (c / 64) mod 64; 128 + c mod 64].
+Definition utf8 (s : ustr) : bytes := flat_map utf8_char s.
+
+(* decoder for valid UTF-8 (None on malformed input) *)
+Fixpoint utf8_decode_fuel (fuel : nat) (l : bytes) : option ustr :=
+  match fuel with
+  | O => match l with [] => Some [] | _ => None end
+  | S f =>
+    match l with
+    | [] => Some []
+    | b0 :: r =>
+      if b0 <? 128 then option_map (cons b0) (utf8_decode_fuel f r)
+      else if (194 <=? b0) && (b0 <=? 223) then
+        match r with
+        | b1 :: r' => if is_cont b1 then option_map (cons ((b0 - 192) * 64 + (b1 - 128))) (utf8_decode_fuel f r') else None
+        | _ => None end
+      else if (224 <=? b0) && (b0 <=? 239) then
+        match r with
+        | b1 :: b2 :: r' =>
+          let c := (b0 - 224) * 4096 + (b1 - 128) * 64 + (b2 - 128) in
+          if is_cont b1 && is_cont b2 && (2048 <=? c) && scalar_ok c then option_map (cons c) (utf8_decode_fuel f r') else None
+        | _ => None end
+      else if (240 <=? b0) && (b0 <=? 244) then
+        match r with
+        | b1 :: b2 :: b3 :: r' =>
+          let c := (b0 - 240) * 262144 + (b1 - 128) * 4096 + (b2 - 128) * 64 + (b3 - 128) in
+          if is_cont b1 && is_cont b2 && is_cont b3 && (65536 <=? c) && (c <? 1114112) then option_map (cons c) (utf8_decode_fuel f r') else None
+        | _ => None end
+      else None
+    end
+  end.
+Definition utf8_decode (l : bytes) : option ustr := utf8_decode_fuel (S (length l)) l.
